@@ -96,13 +96,24 @@ def judge(res: core.Res, run: _site.Run, label: str, w: Dict[str, Any]) -> None:
                     if a in out.pages[ppage].anchors and not any(o.isVisible and (o.name == a or o.fullName() == a) for o in h.parent.contents.values()):
                         res.v('C12:hidden-has-anchor', f'{label}: hidden {h!r} has an anchor {a!r} on {ppage!r}', obj=fn, **w)
         res.c('hidden_link_targets_checked')
-        hits = targets.get(url, [])
+        hits = targets.get(url, [])            # (for a member, `url` is its parent's page plus '#' and its short name)
         if not own_page:
             hits = hits + targets.get(unquote(h.parent.url) + '#' + fn, []) if h.parent is not None else hits
+            # a hidden member whose anchor is also that of a visible namesake on the same page (a later definition) is no trace
+            if any(o is not h and o.isVisible and unquote(o.url) == url for o in system.allobjects.values()):
+                hits = []
         if hits and not _shared_url(system, h):
             res.v('C12:link-to-hidden-object', f'{label}: hidden {h!r} is the target of links on {sorted(set(hits))[:4]}', obj=fn, pages=sorted(set(hits))[:10], **w)
         for e in by_name.get('name:' + fn, []):
             res.v(f'C12:hidden-listed:{e[1].split(":")[0]}', f'{label}: hidden {h!r} has a {e[1]} entry on {e[0]}', obj=fn, page=e[0], **w)
+        # listing items that carry no link show the bare name: on the page of the class the hidden member belongs to, or of a class
+        # that inherits it, such an item is a row for the hidden object unless a visible member of that name exists there
+        if not own_page and isinstance(h.parent, model.Class):
+            for e in by_name.get('text:' + h.name, []):
+                pobjs = [o for o in system.allobjects.values() if isinstance(o, model.Class) and unquote(o.url) == e[0]]
+                for c in pobjs:
+                    if h.parent in c.mro(False, False) and not any(getattr(b.contents.get(h.name), 'isVisible', False) for b in c.mro(False, False)):
+                        res.v(f'C12:hidden-listed:{e[1].split(":")[0]}-unlinked', f'{label}: hidden {h!r} has a {e[1]} item (its bare name, no link) on {e[0]}', obj=fn, page=e[0], **w)
         if fn in docs:
             res.v('C12:hidden-in-all-documents', f'{label}: hidden {h!r} has a record in all-documents.html', obj=fn, **w)
         for fname, rs in refs.items():
@@ -140,7 +151,15 @@ def judge(res: core.Res, run: _site.Run, label: str, w: Dict[str, Any]) -> None:
 def _shared_url(system: Any, h: Any) -> bool:
     """another, visible object legitimately lives at the same address (e.g. the later definition of a duplicate)"""
     u = h.url
-    return any(o is not h and o.isVisible and o.url == u for o in system.allobjects.values())
+    if any(o is not h and o.isVisible and o.url == u for o in system.allobjects.values()):
+        return True
+    # a module displaced from the registry by an object re-exported under its name (known C02 finding) still owns that address
+    # for its remaining members
+    for o in system.allobjects.values():
+        for a in registry._ancestors(o):
+            if a is not h and a.isVisible and a.url == u and system.allobjects.get(a.fullName()) is not a:
+                return True
+    return False
 
 
 def run_case(case: Dict[str, Any]) -> core.Res:
